@@ -983,6 +983,31 @@ def flw6(ctx):
     if not ok:
         r.report("FLW-6|concat_tone|cap", fn_loc(ct), ct.path,
                  "concat_tone can return the raw concatenation without the dedup / four-digit meld step: merged syllables can carry a five-digit tone")
+    # the digit list that tested `len > 4` is replaced on every path from the true edge of that test to the return
+    # (a further condition between the test and the meld would let a five-digit list through)
+    capsw = [(sb, t_succ) for sb, t_succ, f_succ, op, a, c in _cmp_switches(ct) if op == "Gt" and c.get("k") == "const" and c.get("int") == 4
+             and a.get("k") in ("copy", "move") and "len" in _all_defs(ct, a["pl"]["l"])]
+    ok = bool(capsw)
+    for sb, t_succ in capsw:
+        # the vector whose length was tested
+        tested = None
+        for blk in ct.blocks:
+            t = blk["t"]
+            if t["k"] == "call" and (callee_path(t) or "").endswith("Vec::len") and t["args"] and t["args"][0].get("k") in ("copy", "move"):
+                root_l = _param_root(ct, t["args"][0]["pl"]["l"], through_refs=True)
+                if ct.local_name(root_l):
+                    tested = root_l
+        if tested is None:
+            ok = False
+            continue
+        reassign = {i for i, blk in enumerate(ct.blocks) for st_ in blk["s"] if st_["k"] == "assign" and st_["lhs"]["l"] == tested and not st_["lhs"]["p"] and i != 0
+                    and cfg.dominates(sb, i)}
+        if not reassign or not cfg.must_pass_through(t_succ, reassign, cfg.exits):
+            ok = False
+    r.inst("concat_tone: when the digit list is longer than four it is replaced by the melded list on every path to the return", fn_loc(ct), "ok" if ok else "report")
+    if not ok:
+        r.report("FLW-6|concat_tone|meld", fn_loc(ct), ct.path,
+                 "after `len > 4` tested true the digit list can reach the final fold unmelded (a further condition guards the meld): merged syllables can carry a five-digit tone")
     # ---- (c) every write of Syllable.tone has a capped origin
     for b in lib.bodies:
         if b.in_test_mod():
